@@ -425,6 +425,11 @@ impl TransformerContext {
         Ok(())
     }
 
+    /// True while no element is being processed, i.e. for the document's own event list.
+    pub fn at_top_level(&self) -> bool {
+        self.current_depth == 0 && self.element_stack.is_empty()
+    }
+
     pub fn get_top_element(&self) -> Option<SvgElement> {
         self.element_stack.last().cloned()
     }
